@@ -173,6 +173,18 @@ CHECKS['C19'] = dict(
     note='-0.0 and 0.0 identified; non-float64 arrays compared with the float64 copy of the same values.',
     design='DESIGN.md 4/C19')
 
+# families added in round 5 (see DESIGN.md 9.5)
+EXTRA = {
+    'C11': 'A history family solves two models five times in one worker with only one call passing solver parameters (Gurobi termination / tolerance sets): parameter-free solves must return the enumerated optimum, the parameterised call must match gurobipy called directly.',
+    'C12': 'A margs family evaluates 13 expression forms with every combination of absent / common / scalar / scenario-wise realisations of three random variables in every argument order.',
+    'C13': 'An order family places the construction / statement of a constraint coupling two decisions at every point of every adapt-call timeline (18 spellings) and judges optimum and per-scenario read-back by an independent LP over (decision, event) variables.',
+    'C15': 'Twenty further ro bases carry per-constraint sets different from the default set and are also compared with an absolute vertex-LP reference.',
+    'C17': 'An nsr family makes 32 scalar bases of every expression class non-scalar through 46 routes and hands them to every objective method of ro / dro / direct models: each must raise.',
+    'C19': 'An rhs family re-formulates models whose atoms carry multipliers and constant-array right-hand sides after redundant declarations (compared with a fresh build), a soc2 family makes every ordered pair of to_socp / soc_solve calls over (degree, cuts) tuples and compares each with the same call alone in a fresh subprocess.',
+}
+for _k, _v in EXTRA.items():
+    CHECKS[_k]['text'] = CHECKS[_k]['text'] + ' ' + _v
+
 NOT_YET = {}
 
 
